@@ -98,6 +98,10 @@ type SNode struct {
 	WriteOrdinal int
 	drbg         *core.Rng
 
+	// PollOnly, when non-nil, restricts which chains of this node are stepped
+	// (models a node whose other chain loops are slow)
+	PollOnly map[crypto.Hash]bool
+
 	crashOrdinal      int
 	crashBefore       bool
 	failWriteSnapshot int
@@ -770,6 +774,9 @@ func (c *Cluster) pollChains(n *SNode) bool {
 		if ch == nil || !n.Node.SimChainActive(id) {
 			continue
 		}
+		if n.PollOnly != nil && !n.PollOnly[id] {
+			continue
+		}
 		p := ch.SimPools()
 		if p.CachePool == 0 && p.FinalRing == 0 && p.FinalUnmet == 0 && p.Aggregators == 0 {
 			continue
@@ -782,6 +789,38 @@ func (c *Cluster) pollChains(n *SNode) bool {
 		c.Step(n, "poll", func() { n.Node.SimStepChainPoll(id) })
 	}
 	return busy
+}
+
+// PollChainsNested steps the listed chains of n from inside another step of
+// the same node (the outer step is parked at a storage-call boundary): this
+// is the intra-node interleaving of two chain loops at Store-call
+// granularity. It reports how many chains were stepped. If the node crashes
+// meanwhile the caller must unwind with CrashNow.
+func (c *Cluster) PollChainsNested(n *SNode, chains []crypto.Hash) int {
+	stepped := 0
+	for _, id := range chains {
+		if !n.Alive || c.Halt {
+			break
+		}
+		ch := n.Node.SimChain(id)
+		if ch == nil {
+			continue
+		}
+		p := ch.SimPools()
+		if p.CachePool == 0 && p.FinalRing == 0 && p.FinalUnmet == 0 {
+			continue
+		}
+		stepped++
+		n.Node.SimStepChainFinal(id)
+		n.Node.SimStepChainPoll(id)
+	}
+	return stepped
+}
+
+// CrashNow unwinds the current step of n as a crash at this point.
+func (c *Cluster) CrashNow(n *SNode, label string) {
+	c.count("crash." + label)
+	panic(crashSignal{n.Idx})
 }
 
 // wake schedules a prompt poll of n (the real loops are woken by channel
